@@ -33,15 +33,24 @@ HasWitness(tx) == \E i \in 1..Len(tx.ins) : tx.ins[i].wit # <<>>
 
 Marker == Lit(<<0, 1>>)      \* BIP144: marker 0x00, flag 0x01
 
-SerializeTx(tx, withWitness) ==
+\* The general extended form.  Bitcoin (BIP144) knows flag 0x01 only.  Litecoin adds bit 3 (0x08): after the
+\* witness stacks (if any) and before the lock time comes the MWEB part - one byte, 0 meaning "no MWEB
+\* transaction attached" (the marker of the block's integrating HogEx transaction); that is the only value
+\* modelled here, MWEB transaction bodies are not.  flag 0 = legacy form (no marker at all).
+SerializeFlag(tx, flag) ==
+  LET ww == flag \in {1, 9}  mw == flag \in {8, 9} IN
   CatAll(<< LE16(tx.version),
-            IF withWitness THEN Marker ELSE <<>>,
+            IF flag # 0 THEN Lit(<<0, flag>>) ELSE <<>>,
             CompactSize(Len(tx.ins)),
             CatAll([i \in 1..Len(tx.ins) |-> SerIn(tx.ins[i])]),
             CompactSize(Len(tx.outs)),
             CatAll([j \in 1..Len(tx.outs) |-> SerOut(tx.outs[j])]),
-            IF withWitness THEN CatAll([i \in 1..Len(tx.ins) |-> SerWit(tx.ins[i].wit)]) ELSE <<>>,
+            IF ww THEN CatAll([i \in 1..Len(tx.ins) |-> SerWit(tx.ins[i].wit)]) ELSE <<>>,
+            IF mw THEN Lit(<<0>>) ELSE <<>>,
             LE16(tx.lock) >>)
+SerializeTx(tx, withWitness) == SerializeFlag(tx, IF withWitness THEN 1 ELSE 0)
+\* Litecoin: witness bit iff some witness stack is non-empty, MWEB bit as given
+WireLTC(tx, hogex) == SerializeFlag(tx, (IF HasWitness(tx) THEN 1 ELSE 0) + (IF hogex THEN 8 ELSE 0))
 
 \* the standard form: extended iff some witness stack is non-empty
 Wire(tx)     == SerializeTx(tx, HasWitness(tx))
